@@ -1024,6 +1024,14 @@ impl Gen {
                         if normal.is_empty() {
                             continue;
                         }
+                        if rng.random_range(0..4) == 0 {
+                            // an untyped table handle (of a table of any kind): it outlives its read transaction like an
+                            // owned iterator does, and answers len() and stats()
+                            let all: Vec<(&String, &Ty)> = tables.iter().collect();
+                            let (n, ty) = all[rng.random_range(0..all.len())];
+                            let it = self.fresh("u");
+                            return json!({"e": "uhold", "it": it, "src": h, "n": n, "kind": ty.0});
+                        }
                         let (n, ty) = normal[rng.random_range(0..normal.len())];
                         let it = self.fresh("i");
                         return json!({"e": "hold", "it": it, "src": h, "n": n, "kt": ty.1, "vt": ty.2,
@@ -1035,6 +1043,9 @@ impl Gen {
                     }
                     _ if !self.its.is_empty() => {
                         let it = self.its[rng.random_range(0..self.its.len())].clone();
+                        if it.starts_with('u') {
+                            return json!({"e": "ustats", "it": it});
+                        }
                         return json!({"e": "itnext", "it": it, "cnt": rng.random_range(0..6), "rev": rng.random_range(0..2) == 0});
                     }
                     _ => continue,
@@ -1177,7 +1188,7 @@ impl Gen {
                     let h = ev["h"].as_str().unwrap();
                     self.readers.retain(|(x, _)| x != h);
                 }
-                "hold" if okr => self.its.push(ev["it"].as_str().unwrap().to_string()),
+                "hold" | "uhold" if okr => self.its.push(ev["it"].as_str().unwrap().to_string()),
                 "itdrop" => {
                     let it = ev["it"].as_str().unwrap();
                     self.its.retain(|x| x != it);
